@@ -167,7 +167,7 @@ theorem norm53_spec (a b : Nat) (ha : 0 < a) (hb : 0 < b) :
       split
       · rename_i ht
         have ht' : 2 ^ 53 * b ≤ a := (Nat.le_div_iff_mul_le hb).mp ht
-        refine ⟨Or.inl rfl, ?_, ?_⟩ <;> simp only [pow_zero, pow_one, Nat.mul_one] <;> omega
+        refine ⟨Or.inl rfl, ?_, ?_⟩ <;> simp only [pow_zero, Nat.mul_one] <;> omega
       · rename_i ht
         have ht' : a < 2 ^ 53 * b := by
           have := (Nat.div_lt_iff_lt_mul hb).mp (Nat.lt_of_not_ge ht); omega
@@ -201,5 +201,143 @@ theorem norm53_spec (a b : Nat) (ha : 0 < a) (hb : 0 < b) :
       have ht' : a < 2 ^ 53 * (b * D) := by
         have := (Nat.div_lt_iff_lt_mul hBpos).mp (Nat.lt_of_not_ge ht); omega
       refine ⟨Or.inl trivial, ?_, ?_⟩ <;> omega
+
+
+/-! ## `rn53`: the quotient rounded to 53 significant bits -/
+
+/-- the rational value of a dyadic -/
+def Dy.val (x : Dy) : ℚ := (x.num : ℚ) / x.den
+
+/-- the scaled numerator / denominator / rounded significand / scale 2^d/2^u of `rn53 a b` -/
+def sigA (a b : Nat) : Nat := a * 2 ^ (norm53 a b).1
+def sigB (a b : Nat) : Nat := b * 2 ^ (norm53 a b).2
+def sig (a b : Nat) : Nat := rhe (sigA a b) (sigB a b)
+def expo (a b : Nat) : ℤ := ((norm53 a b).2 : ℤ) - (norm53 a b).1
+def scale (a b : Nat) : ℚ := (2 : ℚ) ^ (expo a b)
+
+theorem scale_pos (a b : Nat) : 0 < scale a b := by unfold scale; positivity
+
+theorem scale_eq (a b : Nat) : scale a b = (2 : ℚ) ^ (norm53 a b).2 / 2 ^ (norm53 a b).1 := by
+  unfold scale expo
+  rw [zpow_sub₀ (by norm_num : (2 : ℚ) ≠ 0), zpow_natCast, zpow_natCast]
+
+theorem sigB_pos (a b : Nat) (hb : 0 < b) : 0 < sigB a b := Nat.mul_pos hb (by positivity)
+
+/-- A/B = (a/b) / scale -/
+theorem sig_ratio (a b : Nat) (hb : 0 < b) :
+    (sigA a b : ℚ) / sigB a b = (a : ℚ) / b / scale a b := by
+  have hbq : (b : ℚ) ≠ 0 := by exact_mod_cast (Nat.pos_iff_ne_zero.mp hb)
+  rw [scale_eq]; unfold sigA sigB
+  push_cast
+  field_simp
+
+theorem rn53_val (a b : Nat) (ha : 0 < a) :
+    (rn53 a b).val = (sig a b : ℚ) * scale a b := by
+  unfold rn53 Dy.val
+  simp only [Nat.pos_iff_ne_zero.mp ha, if_false, Nat.shiftLeft_eq]
+  rw [scale_eq]; unfold sig sigA sigB
+  push_cast
+  field_simp
+
+/-- the scaled quotient lies in [2^52, 2^53) -/
+theorem sig_range (a b : Nat) (ha : 0 < a) (hb : 0 < b) :
+    (2 : ℚ) ^ 52 ≤ (a : ℚ) / b / scale a b ∧ (a : ℚ) / b / scale a b < 2 ^ 53 := by
+  obtain ⟨_, h1, h2⟩ := norm53_spec a b ha hb
+  rw [← sig_ratio a b hb]
+  have hB : (0 : ℚ) < sigB a b := by exact_mod_cast sigB_pos a b hb
+  have h1q : (2 : ℚ) ^ 52 * sigB a b ≤ sigA a b := by unfold sigA sigB; exact_mod_cast h1
+  have h2q : (sigA a b : ℚ) < 2 ^ 53 * sigB a b := by unfold sigA sigB; exact_mod_cast h2
+  exact ⟨(le_div_iff₀ hB).mpr h1q, (div_lt_iff₀ hB).mpr h2q⟩
+
+theorem sig_bounds (a b : Nat) (ha : 0 < a) (hb : 0 < b) : 2 ^ 52 ≤ sig a b ∧ sig a b ≤ 2 ^ 53 := by
+  obtain ⟨_, h1, h2⟩ := norm53_spec a b ha hb
+  constructor
+  · exact rhe_ge _ _ _ (sigB_pos a b hb) h1
+  · exact rhe_le _ _ _ (sigB_pos a b hb) (Nat.le_of_lt h2)
+
+/-- **relative error at most 2^-53** -/
+theorem rn53_error (a b : Nat) (ha : 0 < a) (hb : 0 < b) :
+    |(rn53 a b).val - (a : ℚ) / b| ≤ (a : ℚ) / b / 2 ^ 53 := by
+  obtain ⟨r1, r2, _, _⟩ := rhe_rat (sigA a b) (sigB a b) (sigB_pos a b hb)
+  obtain ⟨g1, _⟩ := sig_range a b ha hb
+  rw [sig_ratio a b hb] at r1 r2
+  rw [rn53_val a b ha]
+  have hs := scale_pos a b
+  generalize scale a b = ρ at *
+  generalize (a : ℚ) / b = X at *
+  change ((sig a b : ℕ) : ℚ) ≤ _ at r1
+  change _ ≤ ((sig a b : ℕ) : ℚ) at r2
+  generalize ((sig a b : ℕ) : ℚ) = T at *
+  have hX : X / ρ * ρ = X := div_mul_cancel₀ _ (ne_of_gt hs)
+  have g1' : (2 : ℚ) ^ 52 * ρ ≤ X := by
+    have := mul_le_mul_of_nonneg_right g1 (le_of_lt hs); rwa [hX] at this
+  have u : T * ρ ≤ X + ρ / 2 := by
+    have := mul_le_mul_of_nonneg_right r1 (le_of_lt hs); rw [add_mul, hX] at this; linarith
+  have l : X - ρ / 2 ≤ T * ρ := by
+    have := mul_le_mul_of_nonneg_right r2 (le_of_lt hs); rw [sub_mul, hX] at this; linarith
+  have hb53 : ρ / 2 ≤ X / 2 ^ 53 := by
+    rw [le_div_iff₀ (by positivity)]
+    have : (2 : ℚ) ^ 53 = 2 * 2 ^ 52 := by norm_num
+    rw [this]; linarith
+  rw [abs_le]; constructor <;> linarith
+
+/-- **monotone** in the quotient -/
+theorem rn53_mono (a b a' b' : Nat) (ha : 0 < a) (hb : 0 < b) (ha' : 0 < a') (hb' : 0 < b')
+    (h : (a : ℚ) / b ≤ (a' : ℚ) / b') : (rn53 a b).val ≤ (rn53 a' b').val := by
+  rw [rn53_val a b ha, rn53_val a' b' ha']
+  obtain ⟨g1, g2⟩ := sig_range a b ha hb
+  obtain ⟨g1', g2'⟩ := sig_range a' b' ha' hb'
+  obtain ⟨t1, t2⟩ := sig_bounds a b ha hb
+  obtain ⟨t1', t2'⟩ := sig_bounds a' b' ha' hb'
+  have hs := scale_pos a b
+  have hs' := scale_pos a' b'
+  rcases lt_trichotomy (expo a b) (expo a' b') with hlt | heq | hgt
+  · -- smaller binade: separated by the power of two between them
+    have h2 : 2 * scale a b ≤ scale a' b' := by
+      unfold scale
+      have : (2 : ℚ) ^ (expo a b + 1) ≤ 2 ^ (expo a' b') := zpow_le_zpow_right₀ (by norm_num) (by omega)
+      rwa [zpow_add_one₀ (by norm_num : (2 : ℚ) ≠ 0), mul_comm] at this
+    have ht : ((sig a b : ℕ) : ℚ) ≤ 2 ^ 53 := by exact_mod_cast t2
+    have ht' : (2 : ℚ) ^ 52 ≤ ((sig a' b' : ℕ) : ℚ) := by exact_mod_cast t1'
+    calc ((sig a b : ℕ) : ℚ) * scale a b ≤ 2 ^ 53 * scale a b := by gcongr
+      _ = 2 ^ 52 * (2 * scale a b) := by ring
+      _ ≤ 2 ^ 52 * scale a' b' := by gcongr
+      _ ≤ ((sig a' b' : ℕ) : ℚ) * scale a' b' := by gcongr
+  · -- same binade: round-half-even is monotone
+    have hsc : scale a b = scale a' b' := by unfold scale; rw [heq]
+    have : sig a b ≤ sig a' b' := by
+      apply rhe_mono _ _ _ _ (sigB_pos a b hb) (sigB_pos a' b' hb')
+      rw [sig_ratio a b hb, sig_ratio a' b' hb', hsc]
+      exact div_le_div_of_nonneg_right h (le_of_lt hs')
+    rw [hsc]
+    have : ((sig a b : ℕ) : ℚ) ≤ (sig a' b' : ℕ) := by exact_mod_cast this
+    gcongr
+  · -- impossible: the smaller quotient cannot live in the larger binade
+    exfalso
+    have h2 : 2 * scale a' b' ≤ scale a b := by
+      unfold scale
+      have : (2 : ℚ) ^ (expo a' b' + 1) ≤ 2 ^ (expo a b) := zpow_le_zpow_right₀ (by norm_num) (by omega)
+      rwa [zpow_add_one₀ (by norm_num : (2 : ℚ) ≠ 0), mul_comm] at this
+    have e1 : (2 : ℚ) ^ 52 * scale a b ≤ (a : ℚ) / b := (le_div_iff₀ hs).mp g1
+    have e2 : (a' : ℚ) / b' < 2 ^ 53 * scale a' b' := (div_lt_iff₀ hs').mp g2'
+    have : (2 : ℚ) ^ 53 * scale a' b' ≤ 2 ^ 52 * scale a b := by
+      calc (2 : ℚ) ^ 53 * scale a' b' = 2 ^ 52 * (2 * scale a' b') := by ring
+        _ ≤ 2 ^ 52 * scale a b := by gcongr
+    linarith
+
+/-- exact when the scaled quotient is an integer -/
+theorem rn53_exact (a b : Nat) (ha : 0 < a) (hb : 0 < b) (k : Nat) (hk : sigA a b = k * sigB a b) :
+    (rn53 a b).val = (a : ℚ) / b := by
+  rw [rn53_val a b ha]
+  have hB := sigB_pos a b hb
+  have hBq : (sigB a b : ℚ) ≠ 0 := by exact_mod_cast (Nat.pos_iff_ne_zero.mp hB)
+  have : sig a b = k := by unfold sig; rw [hk]; exact rhe_exact k _ hB
+  rw [this]
+  have hr := sig_ratio a b hb
+  rw [hk] at hr
+  push_cast at hr
+  rw [mul_div_assoc, div_self hBq, mul_one] at hr
+  rw [hr]
+  exact div_mul_cancel₀ _ (ne_of_gt (scale_pos a b))
 
 end GitSizer.Human
